@@ -7,3 +7,4 @@ import Dm.Props.C07
 #print axioms Dm.Props.C07.sharedInfo_wrapping
 #print axioms Dm.Props.C07.wrapped_pointer_field_prints_held_pointer
 #print axioms Dm.Props.C07.wrapped_field_deref_iff_pointer
+#print axioms Dm.Props.C07.default_placeholder_is_the_derived_trait
